@@ -130,6 +130,15 @@ func (x *c03Run) partB() {
 	for k := 0; k < 3; k++ {
 		plans = append(plans, plan{"schnorr", 8, schCode, c03ProgramHash(byte(contract.PrefixStandard), schCode)})
 	}
+	// Schnorr-script addresses whose key is a non-canonical x >= P that decompresses (and a few other hostile classes)
+	for k := 0; k < 4; k++ {
+		hc := c03SchnorrCode(c03Key33(byte(2+k%2), g.nonCanonical(true)))
+		plans = append(plans, plan{"schnorrbad", -1, hc, c03ProgramHash(byte(contract.PrefixStandard), hc)})
+	}
+	for _, hk := range [][]byte{c03Key33(2, c03P), c03Key33(3, g.offCurve()), c03Key33(2, g.nonCanonical(false))} {
+		hc := c03SchnorrCode(hk)
+		plans = append(plans, plan{"schnorrbad", -1, hc, c03ProgramHash(byte(contract.PrefixStandard), hc)})
+	}
 	xCode := contract.CreateCrossChainRedeemScript(nd.Cfg.GenesisBlock.Hash())
 	for k := 0; k < 3; k++ {
 		plans = append(plans, plan{"xaddr", -1, xCode, c03ProgramHash(byte(contract.PrefixCrossChain), xCode)})
@@ -264,7 +273,7 @@ func (x *c03Run) genTx(n *c03Node, i int) (raw []byte, desc map[string]interface
 	t := allTxTypes[(i+x.c.Shard*7)%len(allTxTypes)]
 	directed := ""
 	if i%5 == 4 {
-		directed = []string{"withdraw-v2-signers", "schnorr-short-param", "crafted-script", "mapping-output", "xaddr-hostile-code", "multisig-params", "return-deposit-address", "register-producer-multicode"}[(i/5)%8]
+		directed = []string{"withdraw-v2-signers", "schnorr-short-param", "crafted-script", "mapping-output", "xaddr-hostile-code", "multisig-params", "return-deposit-address", "register-producer-multicode", "schnorr-hostile-key", "xaddr-schnorr-hostile-key"}[(i/5)%10]
 	}
 	pver := byte(r.Intn(6))
 	if r.Intn(12) == 0 {
@@ -295,6 +304,10 @@ func (x *c03Run) genTx(n *c03Node, i int) (raw []byte, desc map[string]interface
 		t, pver, kind = common2.WithdrawFromSideChain, payload.WithdrawFromSideChainVersionV2, "xaddr"
 	case "schnorr-short-param":
 		t, pver, kind, ver = common2.TransferAsset, 0, "schnorr", common2.TxVersion09
+	case "schnorr-hostile-key":
+		t, pver, kind, ver = common2.TransferAsset, 0, "schnorrbad", common2.TxVersion09
+	case "xaddr-schnorr-hostile-key":
+		t, pver, kind, ver = common2.TransferAsset, 0, "xaddr", common2.TxVersion09
 	case "crafted-script":
 		t, pver, kind = common2.TransferAsset, 0, "crafted"
 	case "mapping-output":
@@ -330,7 +343,7 @@ func (x *c03Run) genTx(n *c03Node, i int) (raw []byte, desc map[string]interface
 		}
 		us = append(us, u)
 		if r.Intn(6) == 0 { // second input of another kind
-			if u2 := n.pick(r, []string{"std", "schnorr", "xaddr", "multisig", "crafted"}[r.Intn(5)]); u2 != nil && u2 != u {
+			if u2 := n.pick(r, []string{"std", "schnorr", "xaddr", "multisig", "crafted", "schnorrbad"}[r.Intn(6)]); u2 != nil && u2 != u {
 				us = append(us, u2)
 			}
 		}
@@ -476,7 +489,17 @@ func (x *c03Run) genTx(n *c03Node, i int) (raw []byte, desc map[string]interface
 				p = g.rbytes([]int{0, 1, 32, 63, 64, 65}[r.Intn(6)])
 			}
 			progs = append(progs, &pg.Program{Code: u.Code, Parameter: p})
+		case "schnorrbad":
+			p := g.sig64()
+			if r.Intn(6) == 0 {
+				p = append([]byte{0x40}, p...)
+			}
+			progs = append(progs, &pg.Program{Code: u.Code, Parameter: p})
 		case "xaddr":
+			if directed == "xaddr-schnorr-hostile-key" { // cross-chain prefix: no code-hash match needed
+				progs = append(progs, &pg.Program{Code: c03SchnorrCode(g.hostileKey()), Parameter: g.sig64()})
+				continue
+			}
 			cd := g.code()
 			if r.Intn(3) == 0 {
 				cd = u.Code
@@ -552,6 +575,9 @@ func (x *c03Run) txs(n *c03Node, count int) {
 		reached := false
 		if !sp && serr == nil {
 			c.Inc("B_tx_sanity_pass")
+			if d, _ := desc["directed"].(string); d == "schnorr-hostile-key" || d == "xaddr-schnorr-hostile-key" {
+				c.Inc("B_hostile_key_txs_sanity_pass") // only where NormalSchnorrStartHeight has passed (R2, R3)
+			}
 			sanityPass[tx.TxType()] = true
 			if !tx.IsCoinBaseTx() { // the node never runs the context check on a coinbase through this path
 				var cerr elaerr.ELAError
